@@ -88,8 +88,8 @@ Section C11Comp.
      cursor over header ++ enc(compwire); the cipher is the toy one (positions and bytes of the
      compression layer do not depend on it). *)
   Let CH := cCHUNK k. Let TG := cTAG k.
-  Definition c11_stack (header compwire : bytes) (tab : list (list bytes)) (ops : list (list N)) : list (list N) :=
-    let arch := header ++ enc_format CH toy_ks (toy_tag TG) compwire in
+  Definition c11_stack_gen (header encw : bytes) (tab : list (list bytes)) (ops : list (list N)) : list (list N) :=
+    let arch := header ++ encw in
     let C := Cursor arch in
     let R := RawReader C in
     let E := EncReader CH TG toy_ks (toy_tag TG) R in
@@ -115,6 +115,8 @@ Section C11Comp.
     | (_, Err _) => [[1]]
     | (_, Crash _) => [[2]]
     end.
+  Definition c11_stack (header compwire : bytes) (tab : list (list bytes)) (ops : list (list N)) : list (list N) :=
+    c11_stack_gen header (enc_format CH toy_ks (toy_tag TG) compwire) tab ops.
 End C11Comp.
 
 (* the compression writer's block roll-over: one Write::write call per entry (sizes of the
